@@ -13,7 +13,10 @@ import CollectionsC.Spec.StrMapSpec
   (previous_node == node->left) …` cascade, pointer comparisons included).
 * `char_cmp` is a parameter `cmp : Nat → Nat → Ordering`; the library default (`c1 - c2` on `char`,
   signed on this platform) is `cmpSigned`.
-* Every `mem_alloc`/`mem_calloc`/`mem_free` is a `Mem` event in the C order.
+* Every `mem_alloc`/`mem_calloc`/`mem_free` is a `Mem.allocT t.triple` / `Mem.freeT t.triple` event in the
+  C order; `Table.triple` is the copy of the three function pointers the C struct keeps (`.conf` after
+  `cc_tsttable_new_conf`, `.libc` after `cc_tsttable_new`).
+* `iter_remove` repeated for one yielded element is rejected (repair X7).
 * The empty key (known finding X5) is mirrored: `key_len = 0` makes `get_last_node` return the root
   slot with `last_index + 1 == key_len`. -/
 namespace CC.TST
